@@ -495,7 +495,7 @@ def Rngs.restore (r : Rngs) (bid : Nat) : Except Err Rngs :=
   | some bs => .ok { r with streams := restoreLoop r.streams bs }
 
 /-- `reseed(rngs, **stream_keys)`: streams whose tag is named get the new key and count 0 -/
-def reseedLoop (newKeys : List (String × SymKey)) : List (String × Stream) → Except Err (List (String × Stream))
+def reseedLoop {ι : Type} (newKeys : List (String × SymKey)) : List (ι × Stream) → Except Err (List (ι × Stream))
   | [] => .ok []
   | (n, s) :: rest =>
     match find? s.tag newKeys with
@@ -512,6 +512,68 @@ def reseedLoop (newKeys : List (String × SymKey)) : List (String × Stream) →
 def Rngs.reseed (r : Rngs) (newKeys : List (String × SymKey)) : Except Err Rngs := do
   let streams ← reseedLoop newKeys r.streams
   .ok { r with streams := streams }
+
+/-! ### a node holding several stream objects
+
+Sub-modules that were each built with their own `nnx.Rngs` bring their own `RngStream` objects: one node can hold several
+distinct objects with the same stream name, and one object can be reachable from several attributes.  `graph.iter_graph`
+visits every object once; `reseed` is `reseedLoop` over that list. -/
+
+structure Node where
+  objs : List (Nat × Stream)       -- the distinct RngStream objects in `iter_graph` order: (object id, state); tags may repeat
+  places : List (String × Nat)     -- attribute paths ↦ object id; two places may hold the same object
+  deriving Repr, Inhabited
+
+/-- **not** the shipped code: a `reseed` that consumes each requested name once (`pending.pop`) and stops early -/
+def reseedPopLoop {ι : Type} (pending : List (String × SymKey)) : List (ι × Stream) → Except Err (List (ι × Stream))
+  | [] => .ok []
+  | (n, s) :: rest =>
+    if pending.isEmpty then .ok ((n, s) :: rest)
+    else
+      match find? s.tag pending with
+      | none => do
+        let rest' ← reseedPopLoop pending rest
+        .ok ((n, s) :: rest')
+      | some k =>
+        match s.key with
+        | .batched _ _ => .error .nonScalarReseed
+        | .scalar _ => do
+          let rest' ← reseedPopLoop (pending.filter (fun p => p.1 ≠ s.tag)) rest
+          .ok ((n, { s with key := .scalar k, count := .scalar 0 }) :: rest')
+
+inductive NodeOp where
+  | call (place : String)                         -- `<the stream object at that attribute>()`
+  | reseed (newKeys : List (String × SymKey))     -- `nnx.reseed(node, **newKeys)`
+  | state                                         -- read key and count of every object
+  deriving Repr, Inhabited
+
+inductive NodeOut where
+  | key (k : SymKey)
+  | unit
+  | state (objs : List (Nat × Stream))
+  | err (e : Err)
+  deriving Repr, Inhabited
+
+def nodeStep (nd : Node) : NodeOp → Node × NodeOut
+  | .call place =>
+    match find? place nd.places with
+    | none => (nd, .err .noStream)
+    | some id =>
+      match find? id nd.objs with
+      | none => (nd, .err .badHandle)
+      | some s =>
+        match s.call with
+        | .ok (k, s') => ({ nd with objs := set id s' nd.objs }, .key k)
+        | .error e => (nd, .err e)
+  | .reseed newKeys =>
+    match reseedLoop newKeys nd.objs with
+    | .ok objs => ({ nd with objs := objs }, .unit)
+    | .error e => (nd, .err e)
+  | .state => (nd, .state nd.objs)
+
+def nodeRun : Node → List NodeOp → List NodeOut
+  | _, [] => []
+  | nd, op :: ops => let r := nodeStep nd op; r.2 :: nodeRun r.1 ops
 
 /-- all multi-indices of an array of the given shape, row-major -/
 def indices : List Nat → List (List Nat)
